@@ -43,7 +43,11 @@ class C19(Property):
             n = rng.choice([5, 20, 60, 300] if tier == 'quick' else [5, 50, 500, 3000])
             kinds = ''.join(rng.choice('RRRNNK' if i % 3 else 'RRN') for _ in range(n))
             pre = ''.join(rng.choice('RNK') for _ in range(rng.randint(0, 4))) if i % 2 else ''
-            yield {'kind': 'xmed', 'kinds': kinds, 'pre': pre}
+            case = {'kind': 'xmed', 'kinds': kinds, 'pre': pre}
+            if i % 4 == 3:
+                # the NullTranscoder is registered for the container of the records: every untranscoded child may be discarded
+                case['null_on_container'] = True
+            yield case
         sizes = [30, 60, 120, 400, 1500] if tier == 'quick' else [30, 100, 1000, 5000, 30000]
         reps = 3 if tier == 'quick' else 4
         for n in sizes:
@@ -97,7 +101,7 @@ class C19(Property):
             with XmlTranscoderMediator(out) as m:
                 m.register('/root/summary/item', S())
                 m.register('/root/records/item', T())
-                m.register('/root/records/note', NullTranscoder())
+                m.register('/root/records' if case.get('null_on_container') else '/root/records/note', NullTranscoder())
                 m.add_event_source('/d/')
                 m.set_event_source('/d/')
                 m.parse(io.BytesIO(''.join(parts).encode()))
@@ -146,7 +150,8 @@ class C19(Property):
 
     def requests(self, case):
         if case.get('kind') == 'xmed':
-            return [{'op': 'xmed', 'kinds': list(case['kinds']), 'cross': 'R' in case['pre']}]
+            kinds = case['kinds'].replace('K', 'N') if case.get('null_on_container') else case['kinds']
+            return [{'op': 'xmed', 'kinds': list(kinds), 'cross': 'R' in case['pre']}]
         return [{'op': 'parse', 'reg': P.make_registry(REGS, False, True),
                  'chunks': [P.model_items(self.items_of(case))], 'rootEnd': True, 'versionOk': True}]
 
@@ -161,7 +166,7 @@ class C19(Property):
         if case.get('kind') == 'xmed':
             if obs['err'] is not None:
                 return 'XML transcoder mediator failed: %s' % obs['err']
-            kinds = case['kinds']
+            kinds = case['kinds'].replace('K', 'N') if case.get('null_on_container') else case['kinds']
             lead = kinds.index('R') if 'R' in kinds else len(kinds)
             recs = [i for i, k in enumerate(kinds) if k == 'R']
             if len(obs['log']) != len(recs):
